@@ -186,6 +186,95 @@ func checkModel(m *ref.SpecModel, src string) error {
 			}
 		}
 	}
+	return checkNoAddedProductions(m, sp, src)
+}
+
+// canon is the text of a right-hand side with the alternatives of every alternation in a fixed order.
+func canon(r *ref.RHS) string {
+	if r == nil {
+		return "empty"
+	}
+	var subs []string
+	for _, s := range r.Subs {
+		subs = append(subs, canon(s))
+	}
+	if r.K == "alt" {
+		sort.Strings(subs)
+	}
+	return r.K + ":" + r.Name + "(" + strings.Join(subs, ",") + ")"
+}
+
+func topAlts(r *ref.RHS) []*ref.RHS {
+	switch {
+	case r == nil:
+		return []*ref.RHS{{K: "empty"}}
+	case r.K == "alt":
+		return r.Subs
+	}
+	return []*ref.RHS{r}
+}
+
+// checkNoAddedProductions: when every alternative of every rule handle is, up to the order in which alternatives are
+// listed, an alternative of a rule with that name, each handle names a production the rules define; the grammar is
+// then the grammar of the specification without its directives (same number of productions and non-terminals).
+func checkNoAddedProductions(m *ref.SpecModel, sp *spec.Spec, src string) error {
+	ruleAlts := map[string]map[string]bool{}
+	for _, r := range m.Decls {
+		if r.Kind != "rule" {
+			continue
+		}
+		if ruleAlts[r.Name] == nil {
+			ruleAlts[r.Name] = map[string]bool{}
+		}
+		for _, a := range topAlts(r.RHS) {
+			ruleAlts[r.Name][canon(a)] = true
+		}
+	}
+	handles := 0
+	plain := &ref.SpecModel{Name: m.Name, NameSemi: m.NameSemi}
+	for _, d := range m.Decls {
+		if d.Kind != "directive" {
+			c := *d
+			plain.Decls = append(plain.Decls, &c)
+			continue
+		}
+		for _, h := range d.Handles {
+			if h.Rule == nil {
+				continue
+			}
+			handles++
+			for _, a := range topAlts(h.Rule.RHS) {
+				if !ruleAlts[h.Rule.Name][canon(a)] {
+					return nil // the handle names a production of its own
+				}
+			}
+		}
+	}
+	if handles == 0 {
+		return nil
+	}
+	plain.FixSemis()
+	psrc := plain.Text()
+	var psp *spec.Spec
+	var err error
+	if perr := rec.Guard(func() { psp, err = spec.Parse("t.ebnf", strings.NewReader(psrc)) }); perr != nil || err != nil {
+		return nil // the specification without directives is not this property's concern
+	}
+	rec.Count("handles_all_naming_rule_productions", 1)
+	count := func(s *spec.Spec) (np, nn int) {
+		for range s.Grammar.Productions.All() {
+			np++
+		}
+		for range s.Grammar.NonTerminals.All() {
+			nn++
+		}
+		return
+	}
+	np, nn := count(sp)
+	pp, pn := count(psp)
+	if np != pp || nn != pn {
+		return fmt.Errorf("every rule handle names a production the rules define, but the grammar has %d productions and %d non-terminals; without the directives it has %d and %d: a handle added a production instead of naming the rule's\nspecification:\n%s\ngrammar:\n%v\ngrammar without directives:\n%v", np, nn, pp, pn, src, sp.Grammar, psp.Grammar)
+	}
 	return nil
 }
 
@@ -209,12 +298,29 @@ func evalIn(a *ref.RHS, env map[string]ref.Lang, n int) ref.Lang {
 	return ref.EvalRHS(a, e, n, rules)
 }
 
+// shuffled copies a right-hand side with the non-empty alternatives of every alternation in a drawn order.
+func shuffled(t *rapid.T, r *ref.RHS) *ref.RHS {
+	c := &ref.RHS{K: r.K, Name: r.Name}
+	for _, s := range r.Subs {
+		c.Subs = append(c.Subs, shuffled(t, s))
+	}
+	if c.K == "alt" {
+		n := len(c.Subs)
+		if n > 0 && c.Subs[n-1].K == "empty" {
+			n--
+		}
+		perm := rapid.Permutation(c.Subs[:n]).Draw(t, "altOrder")
+		copy(c.Subs[:n], perm)
+	}
+	return c
+}
+
 func TestPrecedenceLevels(t *testing.T) {
 	rec.Rule(rule)
 	opts := gen.SpecOpts{MaxRules: 3, Depth: 3, Literals: []string{"a", "b", "+", "-", "*"}, Tokens: []string{"TK", "NUM", "ID"}, Directives: 6, RuleHandles: true, DupRules: true, EmptyRules: true}
 	rec.Check(t, 3000, 120000, func(t *rapid.T) {
 		m := gen.Spec(t, opts)
-		ruleHandles, levels := 0, 0
+		ruleHandles, levels, named := 0, 0, 0
 		for _, d := range m.Decls {
 			if d.Kind != "directive" {
 				continue
@@ -225,6 +331,28 @@ func TestPrecedenceLevels(t *testing.T) {
 					continue
 				}
 				ruleHandles++
+				// a handle that names productions the rules define, alternatives listed in another order
+				if rapid.Bool().Draw(t, "nameRuleProduction") {
+					var cands []*ref.RHS
+					for _, r := range m.Decls {
+						if r.Kind == "rule" && r.Name == h.Rule.Name && r.RHS != nil {
+							cands = append(cands, topAlts(r.RHS)...)
+						}
+					}
+					var picked []*ref.RHS
+					for _, c := range cands {
+						if c.K != "empty" && rapid.Bool().Draw(t, "pickAlt") {
+							picked = append(picked, shuffled(t, c))
+						}
+					}
+					if len(picked) == 1 {
+						h.Rule.RHS = picked[0]
+						named++
+					} else if len(picked) > 1 {
+						h.Rule.RHS = &ref.RHS{K: "alt", Subs: picked}
+						named++
+					}
+				}
 				// duplicated alternatives
 				if h.Rule.RHS != nil && h.Rule.RHS.K == "alt" && rapid.IntRange(0, 3).Draw(t, "dupAlt") == 0 {
 					first := h.Rule.RHS.Subs[0]
@@ -242,6 +370,9 @@ func TestPrecedenceLevels(t *testing.T) {
 		cls = append(cls, fmt.Sprintf("levels_%d", levels))
 		if ruleHandles > 0 {
 			cls = append(cls, "rule_handle")
+		}
+		if named > 0 {
+			cls = append(cls, "rule_handle_naming_rule_alternatives")
 		}
 		// position of directives relative to the rules they mention
 		seenRule := map[string]bool{}
